@@ -399,6 +399,11 @@ impl ActorCell {
         super::supervision::SupervisionTree::link(self, supervisor)
     }
 
+    /// The spawn-time link (see [super::supervision::SupervisionTree::link_at_spawn])
+    pub(crate) fn try_link_at_spawn(&self, supervisor: ActorCell) -> bool {
+        super::supervision::SupervisionTree::link_at_spawn(self, supervisor)
+    }
+
     /// Unlink this [super::Actor] from the supervisor if it's
     /// currently linked (if self's supervisor is `supervisor`)
     ///
